@@ -348,7 +348,8 @@ func execC16(x *Ctx, sc *wire.Scenario) *wire.Result {
 		}
 		if xx.Vi && ok && strings.HasSuffix(lastR, "\n") && (ins == lastR+"\n" || ins == "\n"+lastR) {
 			// the listed line-wise put: register text that ends with a newline is put as a line of its own
-			sig = "kill-yank-not-identity:" + sc.Script[xx.Kills[len(xx.Kills)-1]].Cmd + ":killed-text-ends-with-a-newline"
+			// (named after x whichever of x and X took the text: one defect, the put)
+			sig = "kill-yank-not-identity:vi-delete:killed-text-ends-with-a-newline"
 		}
 		return violation(res, "MISMATCH", "C16.yank-inserts-last-kill", sig,
 			fmt.Sprintf("the last kill removed %q; yank turned %q into %q (inserted %q)", lastR, y0.Line, y1.Line, ins))
@@ -375,6 +376,9 @@ func execC16(x *Ctx, sc *wire.Scenario) *wire.Result {
 			sig := "kill-yank-not-identity:" + sc.Script[xx.Kills[0]].Cmd
 			if strings.HasSuffix(lastR, "\n") {
 				sig += ":killed-text-ends-with-a-newline" // put then works line-wise
+				if xx.Vi {
+					sig = "kill-yank-not-identity:vi-delete:killed-text-ends-with-a-newline"
+				}
 			}
 			return violation(res, "MISMATCH", "C16.kill-then-yank-restores", sig,
 				fmt.Sprintf("%s then yank at the same point: %q (cursor %d) -> %q -> %q", sc.Script[xx.Kills[0]].Cmd, b0Single.Line, b0Single.Pos, b1Last.Line, y1.Line))
